@@ -1,5 +1,6 @@
 import Iauthd.Set.Dispose
 import Iauthd.Set.Comparators
+import Iauthd.Set.MapLaws
 /-
   Property C19 — "The set container is an ordered map for every history".
 
@@ -35,5 +36,29 @@ example :
     = [.ins none, .ins none, .ins none, .ins (some ⟨0, 3⟩), .found none,
        .lower (some ⟨2147483647, 1⟩), .rem true (some ⟨-2147483648, 2⟩),
        .walk [⟨0, 4⟩, ⟨2147483647, 1⟩], .back [⟨2147483647, 1⟩, ⟨0, 4⟩], .size 2] := by decide
+
+/-- **C19 (map laws, every reachable state).**  After any history `ops` from the empty set:
+    the elements are strictly increasing under the comparator and the thread list and count
+    agree with the tree; a lookup returns `y` exactly when `y` is the member comparing equal to
+    the key, and there is at most one such member; an element just inserted is what a lookup of
+    any equal key returns (never the element it displaced); a key just removed is not found. -/
+theorem C19_map_laws {α : Type} (cmp : α → α → Int) (h : CmpLaws cmp) (ops : List (Op α)) :
+    let s := modelFinal cmp ({} : SetSt α) ops
+    Inv cmp s
+    ∧ (∀ k y, (stepModel cmp s (.find k)).2 = .found (some y) ↔ (y ∈ abs s ∧ cmp k y = 0))
+    ∧ (∀ k y z, y ∈ abs s → z ∈ abs s → cmp k y = 0 → cmp k z = 0 → y = z)
+    ∧ (∀ n k, cmp k n = 0 →
+        runModel cmp s [.ins n, .find k] = [(stepModel cmp s (.ins n)).2, .found (some n)])
+    ∧ (∀ k nd, runModel cmp s [.rem k nd, .find k] = [(stepModel cmp s (.rem k nd)).2, .found none]) :=
+  ⟨reach_inv h ops, fun k y => reach_find_iff h ops k y, fun k y z => reach_unique h ops k y z,
+   fun n k hk => reach_insert_find h ops n k hk, fun k nd => reach_remove_find h ops k nd⟩
+
+/-- non-vacuity of the map laws on a concrete reachable state: replacement is visible to the
+    next lookup, the removed key is gone -/
+example :
+    runModel cmpInt3 (modelFinal cmpInt3 {} [.ins ⟨5, 1⟩, .ins ⟨3, 2⟩]) [.ins ⟨5, 9⟩, .find ⟨5, 0⟩]
+      = [.ins (some ⟨5, 1⟩), .found (some ⟨5, 9⟩)]
+    ∧ runModel cmpInt3 (modelFinal cmpInt3 {} [.ins ⟨5, 1⟩, .ins ⟨3, 2⟩]) [.rem ⟨3, 0⟩ false, .find ⟨3, 0⟩]
+      = [.rem true (some ⟨3, 2⟩), .found none] := by decide
 
 end Iauthd.Properties
